@@ -272,3 +272,8 @@ func (p *Prog) CondPos(in *ssa.If) string {
 	f := strings.TrimPrefix(pp.Filename, p.Repo+"/")
 	return fmt.Sprintf("%s:%d:%d", f, pp.Line, pp.Column)
 }
+
+// IsLib: fn has a body in library scope.
+func (p *Prog) IsLib(fn *ssa.Function) bool {
+	return fn != nil && len(fn.Blocks) > 0 && p.FuncByID[funcID(fn)] == fn
+}
